@@ -367,6 +367,11 @@ func ReadFromTeletext(r io.Reader, o TeletextOptions) (s *Subtitles, err error) 
 			return
 		}
 
+		// The demuxer has nothing left to give
+		if d == nil {
+			break
+		}
+
 		// We only parse PES data
 		if d.PES == nil {
 			continue
@@ -438,6 +443,12 @@ func teletextPID(dmx *astits.Demuxer, o TeletextOptions) (pid uint16, err error)
 			return
 		}
 
+		// The demuxer has nothing left to give
+		if d == nil {
+			err = ErrNoValidTeletextPID
+			return
+		}
+
 		// PMT data
 		if d.PMT != nil {
 			// Retrieve valid teletext PIDs
@@ -500,6 +511,9 @@ func (b *teletextPageBuffer) dump(lastTime time.Time) (ps []*teletextPage) {
 func (b *teletextPageBuffer) process(d *astits.PESData, t time.Time) (ps []*teletextPage) {
 	// Data identifier
 	var offset int
+	if len(d.Data) == 0 {
+		return
+	}
 	dataIdentifier := uint8(d.Data[offset])
 	offset += 1
 
@@ -509,7 +523,7 @@ func (b *teletextPageBuffer) process(d *astits.PESData, t time.Time) (ps []*tele
 	}
 
 	// Loop through data units
-	for offset < len(d.Data) {
+	for offset+1 < len(d.Data) {
 		// ID
 		id := uint8(d.Data[offset])
 		offset += 1
@@ -541,6 +555,11 @@ func (b *teletextPageBuffer) process(d *astits.PESData, t time.Time) (ps []*tele
 func (b *teletextPageBuffer) parseDataUnit(i []byte, id uint8, t time.Time) {
 	// Check id
 	if id != teletextPESDataUnitIDEBUSubtitleData {
+		return
+	}
+
+	// A data unit holds 4 bytes of addressing and 40 bytes of packet data
+	if len(i) < 44 {
 		return
 	}
 
@@ -744,17 +763,21 @@ func newTeletextCharacterDecoder() *teletextCharacterDecoder {
 
 // TODO Add tests
 func (d *teletextCharacterDecoder) setTripletM29(i uint32) {
-	if *d.tripletM29 != i {
+	if d.tripletM29 == nil || *d.tripletM29 != i {
 		d.tripletM29 = astikit.UInt32Ptr(i)
-		d.updateCharset(d.lastPageCharsetCode, true)
+		if d.lastPageCharsetCode != nil {
+			d.updateCharset(d.lastPageCharsetCode, true)
+		}
 	}
 }
 
 // TODO Add tests
 func (d *teletextCharacterDecoder) setTripletX28(i uint32) {
-	if *d.tripletX28 != i {
+	if d.tripletX28 == nil || *d.tripletX28 != i {
 		d.tripletX28 = astikit.UInt32Ptr(i)
-		d.updateCharset(d.lastPageCharsetCode, true)
+		if d.lastPageCharsetCode != nil {
+			d.updateCharset(d.lastPageCharsetCode, true)
+		}
 	}
 }
 
